@@ -39,6 +39,7 @@ GJunk == JunkClasses
 LifeRoles == {"consumer", "maintainer", "master"}
 LifeDamage == {"flip_tag", "trunc13"}
 LifeJunk == {"random"}
+LifeDurs == {"pos", "neg"}
 LifePaths == {ProbeC.path, <<"v1", "topology">>}
 LifeMethods == {"GET"}
 
@@ -68,7 +69,30 @@ ClassScenarios ==
   \cup {[par |-> [family |-> "classes", cls |-> "bornexpired", role |-> r], ops |-> <<OpGen(1, 1, r, "neg")>> \o ClassTail] :
            r \in {"consumer", "master"}}
 
-\* ---- families policy / classes: one scenario per state
+\* ---- family realtime: tokens with a real expiry of a couple of seconds; "wait" lets the clock pass it.
+\* (the driver runs these scenarios concurrently, so the tier pays the waiting time once)
+OpWait == [op |-> "wait"]
+PC == OpEnf(1, ProbeC.path, ProbeC.method)
+PC2 == OpEnf(2, ProbeC.path, ProbeC.method)
+RT(name, role, ops) == [par |-> [family |-> "realtime", history |-> name, role |-> role],
+                        ops |-> <<OpGen(2, 1, "nobody", "pos")>> \o ops]
+RealtimeScenarios ==
+  UNION {{
+    \* used while alive, expires, is refreshed: the refresh must fail and nothing refreshed may be honoured
+    RT("use_expire_refresh", r, <<OpGen(1, 1, r, "short"), PC, OpWait, OpRef(1, 2, "pos"), PC2, PC, OpRef(1, 1, "pos"), PC>>),
+    \* expires unused, is enforced, then refreshed
+    RT("expire_enforce_refresh", r, <<OpGen(1, 1, r, "short"), OpWait, PC, OpRef(1, 2, "pos"), PC2, PC>>),
+    \* expires unused and is refreshed at once
+    RT("expire_refresh", r, <<OpGen(1, 1, r, "short"), OpWait, OpRef(1, 2, "pos"), PC2, PC>>),
+    \* refreshed while alive, then the old one expires: old refused, new honoured
+    RT("refresh_alive_expire", r, <<OpGen(1, 1, r, "short"), OpRef(1, 2, "pos"), PC, PC2, OpWait, PC, PC2, OpRef(1, 1, "pos"), OpRef(2, 1, "pos"), PC>>),
+    \* refreshed while alive into another short token: both expire
+    RT("refresh_short_expire", r, <<OpGen(1, 1, r, "short"), PC, OpRef(1, 2, "short"), PC2, OpWait, PC, PC2, OpRef(2, 1, "pos"), OpRef(1, 2, "pos"), PC, PC2>>),
+    \* a damaged copy of a token that was used while alive
+    RT("use_tamper_expire", r, <<OpGen(1, 1, r, "short"), PC, OpRef(1, 2, "short"), OpTam(2, "flip_tag"), PC2, OpWait, PC2, OpRef(2, 1, "pos"), PC>>)
+  } : r \in {"consumer", "master"}}
+
+\* ---- families policy / classes / realtime: one scenario per state
 EnumInit == hist = <<>> /\ slots = [s \in Slots |-> None] /\ last = [op |-> "init"]
 EnumNext == /\ hist = <<>>
             /\ UNCHANGED smvars
@@ -76,6 +100,8 @@ EnumNext == /\ hist = <<>>
                   /\ \E r \in GRoles, d \in {"pos", "neg"} : hist' = PolicyScenario(r, d)
                \/ /\ Family = "classes"
                   /\ \E sc \in ClassScenarios : hist' = sc
+               \/ /\ Family = "realtime"
+                  /\ \E sc \in RealtimeScenarios : hist' = sc
 
 \* ---- family life: the state machine with its history
 LifeOp(r) == IF r.op = "refresh" THEN OpRef(r.src, r.dst, r.dur)
